@@ -746,6 +746,15 @@ M("benign-rename-private-fields-pre", ["C01", "C02", "C04", "C05", "C08", "C09",
   [(PRE, "self.__type", "self.__kind", 0), (PRE, "self.__repeatable", "self.__may_repeat", 0), (PRE, "self.__pattern", "self.__text", 0),
    (PRE, "self.__compiled", "self.__engine", 0)], expect="silent")
 
+# ---- instrumentation: state the library only writes cannot reach a result; state it reads back can
+_IMP = (PRE, "import re as _re\n", "import re as _re\nimport time as _time\n_STATS: dict = {}\n", 1)
+M("benign-write-only-stats", ["C20", "C01", "C03"], [_IMP, (PRE, "        if not isinstance(pattern, str):",
+   "        _STATS[\"init\"] = _STATS.get(\"init\", 0) + 1\n        _STATS[\"t\"] = _time.perf_counter()\n        if not isinstance(pattern, str):")], expect="silent")
+M("c20-stats-read-back", ["C20"], [_IMP, (PRE, "        if not isinstance(pattern, str):",
+   "        _STATS[\"init\"] = _STATS.get(\"init\", 0) + 1\n        escape = escape and _STATS.get(\"init\", 0) < 1000\n        if not isinstance(pattern, str):")], rule="R-NOSHARED")
+M("c20-clock-in-result", ["C20"], [_IMP, (PRE, "        if not isinstance(pattern, str):",
+   "        escape = escape and _time.perf_counter() >= 0\n        if not isinstance(pattern, str):")], rule="R-NOHIDDEN")
+
 # ---- caches: a correct cache on a pure function with immutable results is not a violation; one that hands out a mutable object is
 M("benign-lru-cache-on-classifier", ["C20", "C09", "C02"], [(PRE, "import re as _re\n", "import re as _re\nimport functools as _functools\n", 1),
    (PRE, "    @staticmethod\n    def __infer_type(", "    @staticmethod\n    @_functools.lru_cache(maxsize=None)\n    def __infer_type(")], expect="silent")
